@@ -15,7 +15,7 @@ theorem NameAt.mono {W pos len full} (h : NameAt Rs W pos len full) (ext : Bytes
   obtain ⟨ls, hd, hr⟩ := h
   exact ⟨ls, hd.mono ext, hr⟩
 
-theorem getName_of_NameAt Rs {W : Bytes} {pos len : Nat} {full : Name} (h : NameAt Rs W pos len full) (hwf : WfName full)
+theorem getName_of_NameAt {W : Bytes} {pos len : Nat} {full : Name} (h : NameAt Rs W pos len full) (hwf : WfName full)
     (endp : Nat) (he : pos + len ≤ endp) (hw : endp ≤ W.length) :
     ∃ n', getName W endp pos = .ok (n', pos + len) ∧ Rs.R n' full := by
   obtain ⟨ls, hd, hr⟩ := h
@@ -90,7 +90,7 @@ theorem rdataExt_parse (A : Bytes) (t : CTable) (rd : RData) (q : Bytes × CTabl
   | name1 n =>
     simp only [rdataExt] at h
     obtain ⟨_, hat, hwf⟩ := nameExt_at A t n (qe, qn) hv hs h
-    obtain ⟨n', hg, hn'⟩ := getName_of_NameAt Rs (hat.mono post) hwf (A.length + qe.length) (Nat.le_refl _) hlenW
+    obtain ⟨n', hg, hn'⟩ := getName_of_NameAt (hat.mono post) hwf (A.length + qe.length) (Nat.le_refl _) hlenW
     refine ⟨.name1 n', ?_, hn'⟩
     unfold parseRData
     rw [hshape]
@@ -108,7 +108,7 @@ theorem rdataExt_parse (A : Bytes) (t : CTable) (rd : RData) (q : Bytes × CTabl
       have hat' := hat.mono post
       rw [hl] at hat'
       have hlenW' : A.length + 2 + q1.1.length ≤ (A ++ u16 p ++ q1.1 ++ post).length := by simp [u16]; omega
-      obtain ⟨n', hg, hn'⟩ := getName_of_NameAt Rs hat' hwf (A.length + 2 + q1.1.length) (Nat.le_refl _) hlenW'
+      obtain ⟨n', hg, hn'⟩ := getName_of_NameAt hat' hwf (A.length + 2 + q1.1.length) (Nat.le_refl _) hlenW'
       refine ⟨.mx p n', ?_, rfl, hn'⟩
       unfold parseRData
       rw [hshape]
@@ -152,9 +152,9 @@ theorem rdataExt_parse (A : Bytes) (t : CTable) (rd : RData) (q : Bytes × CTabl
         have hWlen : (A ++ (q1.1 ++ q2.1 ++ u32 a ++ u32 b ++ u32 c ++ u32 d ++ u32 e) ++ post).length
             = A.length + q1.1.length + q2.1.length + 20 + post.length := by
           simp [u32]; omega
-        obtain ⟨m', hg1, hm'⟩ := getName_of_NameAt Rs hat1' hwf1 (A.length + (q1.1.length + q2.1.length + 20))
+        obtain ⟨m', hg1, hm'⟩ := getName_of_NameAt hat1' hwf1 (A.length + (q1.1.length + q2.1.length + 20))
           (by omega) (by rw [hWlen]; omega)
-        obtain ⟨r', hg2, hr'⟩ := getName_of_NameAt Rs hat2' hwf2 (A.length + (q1.1.length + q2.1.length + 20))
+        obtain ⟨r', hg2, hr'⟩ := getName_of_NameAt hat2' hwf2 (A.length + (q1.1.length + q2.1.length + 20))
           (by omega) (by rw [hWlen]; omega)
         refine ⟨.soa m' r' a b c d e, ?_, hm', hr', rfl, rfl, rfl, rfl, rfl⟩
         unfold parseRData
@@ -234,7 +234,7 @@ theorem parseRR_of_rrExt (cfg : PCfg) (horg : cfg.origin = none) (A post : Bytes
           rw [hW2]; simp [hhdr]; omega
         have hat' := hat.mono (hdr ++ q3.1 ++ post)
         rw [← hW1] at hat'
-        obtain ⟨owner', hg, hown'⟩ := getName_of_NameAt Rs hat' hwf _ (by rw [hlW]; omega) (Nat.le_refl _)
+        obtain ⟨owner', hg, hown'⟩ := getName_of_NameAt hat' hwf _ (by rw [hlW]; omega) (Nat.le_refl _)
         -- the RDATA
         have hlA' : (A ++ q1.1 ++ hdr).length = A.length + q1.1.length + 10 := by simp [hhdr]; omega
         obtain ⟨rd', hprd, hsim⟩ := rdataExt_parse (A ++ q1.1 ++ hdr) (t ++ q1.2) rd q3 post rdtype hshape hv
